@@ -33,7 +33,10 @@ RULE = (
     "NextTime, PreviousTime, LinearTime and StepTime(step in {0,1/4,1/2,1,1/8,3/4,1/3,2/3,1/10,3/10}), scalar and "
     "small gridded payloads, plus a malformed stream (requests before the first / after the last publication, "
     "pulls before any publication); 40% of the gridded payloads are masked arrays whose missing cells change from "
-    "publication to publication (FLEX info; most of them under a memory limit); payload units m, degC, degF (offset units), K, dimensionless, mm/d; a quarter of the cases give the adapter a memory limit (0 / 1.5 payloads / huge) "
+    "publication to publication (FLEX info; most of them under a memory limit); a third of the value series contain plateaus (identical publications in a row) or drift (consecutive publications "
+    "that agree within 1e-5 relative / 1e-8 absolute but differ) with the source running ahead of the consumer; data shapes "
+    "incl. grids with a degenerate axis (2x2x1, 1x1, 1, 1x2x1); a quarter of the gridded consumers describe the grid "
+    "with axes running the other way (cells matched by coordinates); payload units m, degC, degF (offset units), K, dimensionless, mm/d; a quarter of the cases give the adapter a memory limit (0 / 1.5 payloads / huge) "
     "with one spill directory per worker process and are preceded by another coupling (other payloads) in the "
     "same process and directory; non-trivial = at least 3 publications, at least two "
     "successful pulls in at least two different publication intervals, one of them strictly between publications; "
@@ -57,7 +60,8 @@ POW2_GAPS = [1, 2, 4, 8, 16, 1024, 2**20]
 STEPS = [[0, 1], [1, 4], [1, 2], [1, 1], [1, 8], [3, 4], [1, 3], [2, 3], [1, 10], [3, 10]]
 KINDS = ["next", "prev", "linear", "step"]
 UNITS = ["m", "m", "degC", "degC", "degF", "K", "", "mm/d"]
-SHAPES = [[], [], [], [2], [2, 2], [3, 1]]
+# data shapes; incl. grids with a degenerate axis: one layer of a 3-D grid, a single cell, a single 1-D cell
+SHAPES = [[], [], [], [2], [2, 2], [3, 1], [2, 2, 1], [1, 1], [1], [1, 2, 1]]
 
 
 def _val(rng, dyadic):
@@ -89,17 +93,40 @@ def _gen_case(rng, malformed, kind=None):
     last_req = None
 
     def push():
-        nonlocal t
+        nonlocal t, drift
         if pubs:
             t += rng.choice(gaps)
         pubs.append(t)
-        op = ["push", t, [_val(rng, exact) for _ in range(n)]]
+        nonlocal level
+        if series == "plateau" and level is not None and rng.random() < 0.7:
+            vals = list(level)                       # the same payload again
+        elif series == "drift" and level is not None and rng.random() < 0.85:
+            # close to, but different from, the previous publication (slowly varying state, small SI fluxes)
+            vals = [v + d * rng.choice([1, 1, 2, 3]) for v, d in zip(level, drift)]
+        else:
+            vals = [_val(rng, exact) for _ in range(n)]
+            if series == "drift":
+                if rng.random() < 0.5:
+                    vals = [1024.0 + rng.randint(0, 50) + rng.random() for _ in range(n)]
+                    drift = [rng.choice([1e-6, 1e-7, -1e-6, 3e-5]) for _ in range(n)]
+                else:
+                    vals = [1e-9 * rng.randint(1, 9) for _ in range(n)]
+                    drift = [1e-9 * rng.choice([1, 1, -0.5, 0.25]) for _ in range(n)]
+        level = vals
+        op = ["push", t, vals]
         if masked:
             # missing cells, different from publication to publication (numpy masked array, Mask.FLEX info)
             op.append([0] * n if rng.random() < 0.25 else [int(rng.random() < 0.35) for _ in range(n)])
         ops.append(op)
 
     masked = bool(shape) and rng.random() < 0.4
+    # value series: independent values | plateaus (identical publications in a row) | drift (consecutive
+    # publications that agree to 1e-5 relative / 1e-8 absolute but are different values)
+    series = rng.choice([None, None, None, "plateau", "drift", "drift"])
+    if series == "drift":
+        exact = False
+    level, drift = None, None
+    push_rate = 0.4 if series is None else 0.6      # plateau / drift: the source runs ahead of the consumer
     if not (malformed and rng.random() < 0.4):
         push()
     for _ in range(nops):
@@ -109,7 +136,7 @@ def _gen_case(rng, malformed, kind=None):
             else:
                 push()
             continue
-        if rng.random() < 0.4:
+        if rng.random() < push_rate:
             push()
             continue
         lo = pubs[0] if last_req is None else last_req
@@ -148,7 +175,10 @@ def _gen_case(rng, malformed, kind=None):
     mem = rng.choice([0, "mid", "huge"]) if rng.random() < (0.6 if masked else 0.25) else None
     # payload units incl. offset units (degC, degF): the interpolant is formed in the payload's own unit
     units = rng.choice(UNITS)
-    return {"kind": kind, "step": step, "shape": shape, "exact": exact, "mem": mem, "units": units, "ops": ops}
+    # the consumer may describe the same grid in another (compatible) layout: axes running the other way
+    flip = [rng.random() < 0.5 for _ in shape] if (shape and rng.random() < 0.25) else None
+    return {"kind": kind, "step": step, "shape": shape, "exact": exact, "mem": mem, "units": units, "series": series,
+            "flip": flip, "ops": ops}
 
 
 def _daily(vals):
@@ -164,7 +194,30 @@ def _masked_witness(kind, step, mem):
                     ["pull", 32]]}
 
 
+def _drift_witness(kind, step, small):
+    """publications that are close to (np.allclose), but different from, their predecessors while the source is
+    several publications ahead of the consumer (seeded C11_l)"""
+    vals = [(1e-9 * (1 + k)) if small else (1024.0 + 1e-6 * k) for k in range(7)]
+    ops = [["push", k * DAY, [vals[k]]] for k in range(4)] + [["pull", 0], ["pull", DAY + DAY // 2], ["pull", 3 * DAY]]
+    ops += [["push", k * DAY, [vals[k]]] for k in range(4, 7)] + [["pull", 4 * DAY], ["pull", 5 * DAY + 7], ["pull", 6 * DAY]]
+    return {"kind": kind, "step": step, "shape": [], "exact": False, "mem": None, "units": "m", "series": "drift", "flip": None,
+            "ops": ops}
+
+
+def _shape_witness(kind, step, shape, flip=None):
+    """grids with a degenerate axis: one layer of a 3-D grid, a single cell (seeded C11_m)"""
+    n = int(np.prod(shape))
+    ops = [["push", 0, [float(j + 1) for j in range(n)]], ["push", 8, [float(3 * j - 2) for j in range(n)]], ["pull", 0],
+           ["pull", 2], ["push", 24, [float(j * j) - 0.5 for j in range(n)]], ["pull", 8], ["pull", 20], ["pull", 24]]
+    return {"kind": kind, "step": step, "shape": shape, "exact": False, "mem": None, "units": "m", "series": None, "flip": flip,
+            "ops": ops}
+
+
 CORPUS = [
+    _drift_witness("next", None, False), _drift_witness("linear", None, True), _drift_witness("prev", None, True),
+    _drift_witness("step", [1, 2], False),
+    _shape_witness("linear", None, [2, 2, 1]), _shape_witness("next", None, [1, 1]), _shape_witness("step", [1, 4], [1]),
+    _shape_witness("prev", None, [1, 2, 1]), _shape_witness("linear", None, [3, 2], flip=[False, True]),
     _masked_witness("next", None, 0), _masked_witness("prev", None, "mid"), _masked_witness("linear", None, 0),
     _masked_witness("step", [1, 4], 0), _masked_witness("linear", None, None),
     # offset units: requests strictly inside a gap (seeded C11_e); expected = interpolant in the same unit
@@ -242,6 +295,25 @@ def make_grid(shape):
     return fm.UniformGrid(tuple(s + 1 for s in shape))
 
 
+def consumer_grid(shape, flip):
+    """the consumer's description of the source grid: same cells, flagged axes running the other way"""
+    if not shape or not flip or not any(flip):
+        return make_grid(shape)
+    return fm.UniformGrid(tuple(s + 1 for s in shape), axes_increase=[not f for f in flip])
+
+
+def to_source_cells(arr, src, cons, shape):
+    """delivered array (consumer layout, no time axis) -> flat list in the harness' cell order (C order of the
+    source data shape); cells are identified by their COORDINATES, not by their index"""
+    arr = np.asarray(arr).reshape(tuple(shape))
+    if not shape or cons is src:
+        return arr.reshape(-1)
+    vals = arr.reshape(-1, order=cons.order)
+    idx = {tuple(np.round(pt, 6)): k for k, pt in enumerate(np.asarray(cons.data_points))}
+    flat = np.array([vals[idx[tuple(np.round(pt, 6))]] for pt in np.asarray(src.data_points)])
+    return flat.reshape(tuple(shape), order=src.order).reshape(-1)
+
+
 def spill_dir():
     """ONE spill directory per worker process, shared by all cases this process runs (outside /repo and /verif)."""
     d = os.path.join(tempfile.gettempdir(), f"verif_spill_{os.getpid()}")
@@ -286,8 +358,9 @@ def _run_link(case, ghost):
     out >> ada >> inp
     inp.ping()
     units = case.get("units", "m")
+    cgrid = consumer_grid(shape, case.get("flip")) if case.get("flip") else grid
     out.push_info(fm.Info(time=t0, grid=grid, units=units))
-    inp.exchange_info(fm.Info(time=t0, grid=grid, units=units))
+    inp.exchange_info(fm.Info(time=t0, grid=cgrid, units=units))
     pulls = []
     has_masks = any(op[0] == "push" and len(op) > 3 for op in case["ops"])
     try:
@@ -303,12 +376,12 @@ def _run_link(case, ghost):
                     d = inp.pull_data(T(op[1]))
                     m = magnitude(d)
                     if has_masks:
-                        bits = [int(b) for b in np.ma.getmaskarray(m).reshape(-1)]
-                        raw = np.asarray(np.ma.getdata(m), dtype=float).reshape(-1)
+                        bits = [int(b) for b in to_source_cells(np.ma.getmaskarray(m), grid, cgrid, shape)]
+                        raw = to_source_cells(np.asarray(np.ma.getdata(m), dtype=float), grid, cgrid, shape)
                         # what sits under a missing cell is not part of the result
                         pulls.append(["ok", [0.0 if b else float(x) for x, b in zip(raw, bits)], bits])
                         continue
-                    vals = [float(x) for x in np.asarray(m, dtype=float).reshape(-1)]
+                    vals = [float(x) for x in to_source_cells(np.asarray(m, dtype=float), grid, cgrid, shape)]
                     pulls.append(["ok", vals])
                 except Exception as e:  # noqa
                     pulls.append([err_class(e)])
@@ -500,7 +573,9 @@ def distribution(cases, obss):
     nops = Counter(min(len(c["ops"]) // 10 * 10, 40) for c in cases)
     mems = Counter(str(c.get("mem")) for c in cases)
     units = Counter(c.get("units", "m") or "dimensionless" for c in cases)
-    return {"kinds": dict(kinds), "step_positions": dict(steps), "payload_shapes": dict(shapes), "memory_limit": dict(mems),
+    extra = {"value_series": dict(Counter(str(c.get("series")) for c in cases)),
+             "consumer_grid_layout_differs": sum(1 for c in cases if c.get("flip") and any(c["flip"]))}
+    return {**extra, "kinds": dict(kinds), "step_positions": dict(steps), "payload_shapes": dict(shapes), "memory_limit": dict(mems),
             "masked_payload_cases": sum(1 for c in cases if any(o[0] == "push" and len(o) > 3 for o in c["ops"])), "payload_units": dict(units),
             "pull_results": dict(res), "exact_dyadic_linear_cases": exact, "ops_per_case_bucket": dict(nops)}
 
@@ -509,6 +584,6 @@ def shrink_candidates(case):
     ops = case["ops"]
     if case["shape"]:
         if not any(o[0] == "push" and len(o) > 3 for o in ops):
-            yield dict(case, shape=[], ops=[[o[0], o[1], o[2][:1]] if o[0] == "push" else o for o in ops])
+            yield dict(case, shape=[], flip=None, ops=[[o[0], o[1], o[2][:1]] if o[0] == "push" else o for o in ops])
     for i in range(len(ops) - 1, -1, -1):
         yield dict(case, ops=ops[:i] + ops[i + 1:])
